@@ -41,7 +41,7 @@ def run_cli(binary, wd, group, shape, kind, k, opt, threads, tag):
     env["RAYON_NUM_THREADS"] = str(threads)
     env["RUST_BACKTRACE"] = "0"
     try:
-        p = subprocess.run(cmd, env=env, stdout=subprocess.PIPE, stderr=subprocess.PIPE, timeout=600)
+        p = subprocess.run(cmd, env=env, stdout=subprocess.PIPE, stderr=subprocess.PIPE, timeout=int(os.environ.get("VERIF_CLI_TIMEOUT", "180")))
         rc, err = p.returncode, p.stderr.decode("utf-8", "replace") + p.stdout.decode("utf-8", "replace")
     except subprocess.TimeoutExpired:
         rc, err = 124, "timeout"
